@@ -549,9 +549,9 @@ standstill half) — and any loss of probes and answers.  In the state it leaves
 queue is not full from now on), the links are fair, the writer has stopped.  Then the transfer
 completes: the window is re-opened by a probe round (`C03_zero_window_probe_bound`), the queued segments
 are numbered and acknowledged one stage after the other (Lemmas/SysDrainFull.lean).  Hypotheses as in
-`C02_drain_general_partial` (Props/C02.lean): congestion window off at A, B's queue never full after the
-return (`QB` in every state), head timers within `Rmax`, nothing stale on its way to A at the return
-(`FreshBa`). -/
+`C02_drain_general_partial` (Props/C02.lean): B's queue never full after the return (`QB` in every
+state), head timers within `Rmax`, a send window at A, nothing stale on its way to A at the return
+(`FreshBa`); congestion control may be on or off. -/
 
 open KcpVerif.Sys KcpVerif.SysC in
 theorem C03_resume_partial (A B : Kcp) (D t0 : Nat) (ndA ndB : Bool) (hinit : ConsInit A B)
@@ -569,8 +569,7 @@ theorem C03_resume_partial (A B : Kcp) (D t0 : Nat) (ndA ndB : Bool) (hinit : Co
   exact drain_full_all hIA hR _ _ ⟨hi, hpi, hfresh⟩ (Nat.le_refl _) evs hns hr hnow
 
 /-! what `C03_resume_partial` does not cover (the full statement stays `C03_resume_full` above):
-congestion control on (`nocwnd = 0`: `cwnd` may be 0 at the first flush after the window re-opens, one
-more flush is needed), a receive window that a burst can fill between two reads (`QB` fails in that
+a receive window that a burst can fill between two reads (`QB` fails in that
 state; the reader condition `QOk` of `C02_drain_partial` should suffice), stale `wnd = 0` frames still on
 their way to A at the return (they arrive within `D`), and the derivation of `TmrOk` from the number of
 earlier timeouts. -/
@@ -612,5 +611,37 @@ set_option maxRecDepth 1000000 in
 example : SysC.RunP (SysC.FullHyp ⟨c03ResA.snd_nxt, c03ResA.conv, 0, 0, 0⟩ 300 10)
     (SysC.netRun (Sys.init c03ResA c03ResB 0 1000) c03ResPre) c03ResEvs :=
   SysC.runFullChk_sound ⟨c03ResA.snd_nxt, c03ResA.conv, 0, 0, 0⟩ 300 10 _ _ (by decide)
+
+/-! the same with congestion control ON (`nocwnd = 0`, fresh `cwnd = 0`): the history first lets the
+congestion window open to 2, the reader stays away until B's queue of four is full and A has learned
+`wnd = 0` with five messages still queued; the reader returns, the WINS is lost, and the run hypotheses
+hold along 58 rounds in which the window re-opens at t = 1500 and everything is delivered, read and
+acknowledged. -/
+
+def c03CcA : Kcp := Kcp.noDelay (Kcp.new 7) 1 10 2 0
+def c03CcB : Kcp := Kcp.wndSize (Kcp.noDelay (Kcp.new 7) 1 10 2 0) 32 4
+def c03CcPre : List SysC.NetEv :=
+  [.fair (.send [1]), .fair (.send [2]), .fair (.send [3]), .fair (.send [4]), .fair (.send [5]), .fair (.send [6]),
+   .fair .flushA, .fair .flushA, .fair .dlvB, .fair .flushB, .fair .dlvA, .fair .flushA, .fair .dlvB, .fair .flushB,
+   .fair .dlvA, .fair .flushA, .fair .dlvB, .fair .flushB, .fair .dlvA,
+   .fair (.send [7]), .fair (.send [8]), .fair (.send [9]),
+   .fair .read, .fair .read, .fair .read, .fair .read, .fair .read, .fair .read, .fair .flushB, .shuffle [] []]
+def c03CcEvs : List Sys.Ev := (List.replicate 58 c03ResRound).flatten
+
+set_option maxRecDepth 1000000 in
+example : SysC.ConsInit c03CcA c03CcB ∧ c03CcA.probe_wait = 0 ∧ c03CcA.nocwnd = 0 ∧ c03CcA.cwnd = 0 ∧
+    SysC.NetNoWrap c03CcA.snd_nxt (Sys.init c03CcA c03CcB 0 1000) c03CcPre ∧
+    (SysC.netRun (Sys.init c03CcA c03CcB 0 1000) c03CcPre).A.rmt_wnd = 0 ∧
+    (SysC.netRun (Sys.init c03CcA c03CcB 0 1000) c03CcPre).A.snd_buf = [] ∧
+    (SysC.netRun (Sys.init c03CcA c03CcB 0 1000) c03CcPre).A.snd_queue.length = 5 ∧
+    (SysC.netRun (Sys.init c03CcA c03CcB 0 1000) c03CcPre).ba = [] ∧
+    (∀ ev ∈ c03CcEvs, SysC.isSend ev = false) ∧
+    (Sys.run (SysC.netRun (Sys.init c03CcA c03CcB 0 1000) c03CcPre) c03CcEvs).A.waitSnd = 0 ∧
+    (Sys.run (SysC.netRun (Sys.init c03CcA c03CcB 0 1000) c03CcPre) c03CcEvs).got = [1, 2, 3, 4, 5, 6, 7, 8, 9] := by
+  decide
+set_option maxRecDepth 1000000 in
+example : SysC.RunP (SysC.FullHyp ⟨c03CcA.snd_nxt, c03CcA.conv, 0, 0, 0⟩ 300 10)
+    (SysC.netRun (Sys.init c03CcA c03CcB 0 1000) c03CcPre) c03CcEvs :=
+  SysC.runFullChk_sound ⟨c03CcA.snd_nxt, c03CcA.conv, 0, 0, 0⟩ 300 10 _ _ (by decide)
 
 end KcpVerif.Props
